@@ -103,6 +103,8 @@ def coil_dims(repo: pathlib.Path):
                     try:
                         rows.append((cls.name, int(ast.literal_eval(n.value))))
                     except (ValueError, SyntaxError):
+                        if isinstance(n.value, ast.Name) and n.value.id == "coil_dim":
+                            continue      # constructor parameter: its default is recorded below
                         raise Untranslatable(f"{cls.name}: symbolic _coil_dim `{ast.unparse(n.value)}`")
             for f in cls.body:
                 if isinstance(f, ast.FunctionDef) and f.name == "__init__":
